@@ -186,7 +186,7 @@ SUBCHECKS = {"prog": x_prog}
 
 FEATURES = ("own_exc", "expect", "force", "decor", "noupcall", "nested_cleanup", "truthy_return",
             "mismatch_details", "handlers", "clone", "xfail_decor", "eq_exc", "setup_returns", "details", "fixture",
-            "old_style_fixture")
+            "old_style_fixture", "base_handler")
 
 
 def run(ctx):
